@@ -41,7 +41,7 @@ def run(ctx):
     ctx.cov['rule'] = ('primitives: every boundary value (2^k, 2^k+-1 for k in 7..192, 0, +-1), all string/byte lengths 0..40, '
                        'seeded random values; decoders on valid encodings with every truncation and single-field corruption. '
                        'A case is non-trivial when distinct after canonicalisation (kind, value or byte string).')
-    ctx.regen(only=['enums'])
+    ctx.regen(only=['enums', 'kmiperrors'])
     ctx.prove('props/C02.v')
     quick = ctx.tier == 'quick'
     cases, meta = prim_cases(ctx, 40 if quick else 400, 6 if quick else 40)
@@ -50,3 +50,137 @@ def run(ctx):
         ctx.disagreement('prims', {'case': meta[i], 'coq': cases[i][:400]})
     ctx.sample({'primitive_case': cases[0]})
     ctx.sample({'primitive_case': cases[len(cases) // 2][:300]})
+
+
+# ---------------------------------------------------------------------- response envelope
+ENV_HEADER = ('From PK Require Import Codec.Envelope.\nFrom Coq Require Import List ZArith String.\n'
+              'Import ListNotations.\nOpen Scope Z_scope.\nOpen Scope string_scope.\n')
+
+
+def _coq_str(s):
+    from vlib import coqprint as cp
+    try:
+        return cp.string(s)
+    except ValueError:
+        return None
+
+
+def envelope_run(ctx, n_requests):
+    """Drive the real engine, record what _process_operation raised per item, compare the composed
+    result item with the model (Coq), and check the encoded response against the envelope with the
+    independent parser (direct oracle)."""
+    import random
+    import kdrv
+    import workload
+    import ttlvparse
+    from kmip.core import enums, utils, exceptions as kexc
+    from vlib import coqprint as cp
+    rng = ctx.subrng('envelope')
+    eng = kdrv.Engine(workdir=ctx.work)
+    st = workload.State()
+    raised = []
+    orig = eng.engine._process_operation
+
+    def spy(operation, payload):
+        try:
+            r = orig(operation, payload)
+            raised.append(('ok',))
+            return r
+        except kexc.KmipError as e:
+            raised.append(('kmip', e.status.value, e.reason.value, str(e)))
+            raise
+        except Exception as e:
+            raised.append(('other', type(e).__name__))
+            raise
+    eng.engine._process_operation = spy
+    cases, meta = [], []
+    try:
+        for k in range(n_requests):
+            items, kw, desc = workload.gen_request(rng, st)
+            eng.clock.t += rng.choice([0, 0, 1, 5])
+            del raised[:]
+            user, groups = kw.pop('user'), kw.pop('groups')
+            version = kw.get('version', (1, 2))
+            try:
+                req = eng.build(items, **kw)
+            except Exception as e:      # a request the library refuses to construct is not a server response
+                ctx.count('envelope.unbuildable')
+                continue
+            resp = eng.process(req, user, groups)
+            workload.note_result(st, resp)
+            if resp['error'] is not None:
+                # the session answers request-level KMIP errors through build_error_response
+                ctx.count('envelope.request_error.' + resp['error']['reason'])
+                from kmip.core.messages import contents
+                msg = eng.engine.build_error_response(contents.ProtocolVersion(*version),
+                                                      enums.ResultReason[resp['error']['reason']], resp['error']['message'])
+                s = utils.BytearrayStream()
+                msg.write(s)
+                probs, _ = ttlvparse.envelope_problems(s.buffer, version)
+                ctx.case_seen(('reqerr', resp['error']['reason'], version))
+                for p in probs:
+                    ctx.violation({'path': 'build_error_response', 'problem': p.split(' (')[0][:60]},
+                                  {'request': desc, 'kwargs': repr(kw), 'bytes': bytes(s.buffer).hex()},
+                                  'error response violates the envelope: ' + p)
+                continue
+            s = utils.BytearrayStream()
+            try:
+                resp['raw'].write(s, kmip_version=enums.KMIPVersion['KMIP_%d_%d' % version])
+            except Exception as e:
+                ctx.violation({'path': 'encode-response', 'exc': type(e).__name__, 'ops': '/'.join(sorted(set(desc)))},
+                              {'request': desc, 'kwargs': repr(kw)}, 'the response cannot be encoded: %r' % e)
+                continue
+            probs, summ = ttlvparse.envelope_problems(s.buffer, version)
+            for p in probs:
+                ctx.violation({'path': 'process_request', 'problem': p.split(' (')[0][:60], 'ops': '/'.join(sorted(set(desc)))},
+                              {'request': desc, 'kwargs': repr(kw), 'bytes': bytes(s.buffer).hex()},
+                              'response violates the envelope: ' + p)
+            # one result per processed item, in order
+            if len(resp['items']) != len(raised):
+                ctx.violation({'path': 'process_request', 'problem': 'results != processed items'},
+                              {'request': desc, 'kwargs': repr(kw)}, 'number of results differs from the number of processed items')
+            for it, ra in zip(resp['items'], raised):
+                ctx.count('envelope.item.%s.%s' % (it['op'], it['reason'] or 'SUCCESS'))
+                nontrivial = ctx.case_seen(('item', it['op'], it['status'], it['reason'], it['message']))
+                if ra[0] == 'ok':
+                    o = 'OSuccess'
+                elif ra[0] == 'kmip':
+                    m = _coq_str(ra[3])
+                    if m is None:
+                        continue
+                    o = '(OKmipError %s %s %s)' % (cp.z(ra[1]), cp.z(ra[2]), m)
+                else:
+                    o = 'OOther'
+                rm = None if it['message'] is None else _coq_str(it['message'])
+                if it['message'] is not None and rm is None:
+                    continue
+                st_v = enums.ResultStatus[it['status']].value
+                rs_v = enums.ResultReason[it['reason']].value if it['reason'] else None
+                cases.append('ECase %s %s %s %s' % (o, cp.z(st_v), cp.option(rs_v, cp.z), 'None' if rm is None else '(Some %s)' % rm))
+                meta.append((desc, it['op'], it['status'], it['reason'], it['message'], ra))
+    finally:
+        eng.close()
+    return cases, meta
+
+
+def run_envelope(ctx):
+    quick = ctx.tier == 'quick'
+    cases, meta = envelope_run(ctx, 400 if quick else 4000)
+    bad = ctx.run_cases('envelope', ENV_HEADER, cases, 'check_ecase',
+                        what='compose (Envelope.v) vs the result items built by KmipEngine._process_batch')
+    for i in bad[:20]:
+        ctx.disagreement('envelope', {'case': repr(meta[i])[:500], 'coq': cases[i][:300]})
+    if cases:
+        ctx.sample({'envelope_case': cases[0], 'request': repr(meta[0][0])})
+
+
+_run_prims = run
+
+
+def run(ctx):
+    _run_prims(ctx)
+    ctx.cov['rule'] += (' Envelope: seeded random request histories (~70% successes, every error class reachable by the workload, '
+                        'request-level errors) on the real engine; every response is encoded and parsed by an independent TTLV '
+                        'parser; distinct = distinct (operation, status, reason, message).')
+    ctx.regen(only=['kmiperrors'])
+    run_envelope(ctx)
